@@ -472,6 +472,7 @@ pub fn run_batch(o: &BatchOpts, want_digests: bool) -> BatchOut {
     let stop = Arc::new(AtomicBool::new(false));
     let first_bad = Arc::new(AtomicU64::new(u64::MAX));
     let end = o.start + o.runs;
+    let base_start = o.start;
     let results: Arc<Mutex<Vec<WorkerOut>>> = Arc::new(Mutex::new(Vec::new()));
     let progresses: Vec<Arc<Progress>> = (0..o.threads).map(|_| Arc::new(Progress::new())).collect();
     let hang: Arc<Mutex<Option<(u64, ExecCfg, Vec<Op>)>>> = Arc::new(Mutex::new(None));
@@ -554,10 +555,13 @@ pub fn run_batch(o: &BatchOpts, want_digests: bool) -> BatchOut {
                             wo.truncated += 1;
                         }
                         // keep a few samples: shortest clean, first with faults
-                        if wo.samples.len() < 3 && out.found.is_none() && !out.ops.is_empty() && out.ops.len() <= 12 {
+                        if out.found.is_none() && out.ops.len() >= 2 && out.ops.len() <= 12 && idx < base_start + 4096 {
+                            // one fault-free and one faulty sample, the longest among the short runs
                             let has_fault = out.stats.faults.values().any(|v| *v > 0);
-                            if !wo.samples.iter().any(|s| s.2 == has_fault) {
-                                wo.samples.push((idx, out.ops.len(), has_fault, out.ops.clone(), gcfg.exec.payload.clone()));
+                            match wo.samples.iter_mut().find(|s| s.2 == has_fault) {
+                                Some(s) if s.1 < out.ops.len() => *s = (idx, out.ops.len(), has_fault, out.ops.clone(), gcfg.exec.payload.clone()),
+                                Some(_) => {}
+                                None => wo.samples.push((idx, out.ops.len(), has_fault, out.ops.clone(), gcfg.exec.payload.clone())),
                             }
                         }
                         if let Some(f) = out.found {
@@ -649,7 +653,7 @@ pub fn run_batch(o: &BatchOpts, want_digests: bool) -> BatchOut {
         samples.extend(wo.samples);
         out.digests.extend(wo.digests);
     }
-    samples.sort_by_key(|s| (s.2, s.0));
+    samples.sort_by_key(|s| (s.2, std::cmp::Reverse(s.1), s.0));
     samples.dedup_by_key(|s| s.2);
     for s in samples.into_iter().take(3) {
         out.samples.push(serde_json::json!({
